@@ -70,22 +70,22 @@ private:
 // it is often faster to just apply the relation operator to the base
 template <typename D,typename Iterator,typename SFn> inline
 bool operator>(const step_iterator_adaptor<D,Iterator,SFn>& p1, const step_iterator_adaptor<D,Iterator,SFn>& p2) {
-    return p1.step()>0 ? p1.base()> p2.base() : p1.base()< p2.base();
+    return p1.step()>0 ? memunit_distance(p2.base(),p1.base())>0 : memunit_distance(p2.base(),p1.base())<0;
 }
 
 template <typename D,typename Iterator,typename SFn> inline
 bool operator<(const step_iterator_adaptor<D,Iterator,SFn>& p1, const step_iterator_adaptor<D,Iterator,SFn>& p2) {
-    return p1.step()>0 ? p1.base()< p2.base() : p1.base()> p2.base();
+    return p1.step()>0 ? memunit_distance(p2.base(),p1.base())<0 : memunit_distance(p2.base(),p1.base())>0;
 }
 
 template <typename D,typename Iterator,typename SFn> inline
 bool operator>=(const step_iterator_adaptor<D,Iterator,SFn>& p1, const step_iterator_adaptor<D,Iterator,SFn>& p2) {
-    return p1.step()>0 ? p1.base()>=p2.base() : p1.base()<=p2.base();
+    return p1.step()>0 ? memunit_distance(p2.base(),p1.base())>=0 : memunit_distance(p2.base(),p1.base())<=0;
 }
 
 template <typename D,typename Iterator,typename SFn> inline
 bool operator<=(const step_iterator_adaptor<D,Iterator,SFn>& p1, const step_iterator_adaptor<D,Iterator,SFn>& p2) {
-    return p1.step()>0 ? p1.base()<=p2.base() : p1.base()>=p2.base();
+    return p1.step()>0 ? memunit_distance(p2.base(),p1.base())<=0 : memunit_distance(p2.base(),p1.base())>=0;
 }
 
 template <typename D,typename Iterator,typename SFn> inline
